@@ -127,6 +127,21 @@ func (dec *Decoder) Decode() (*Document, error) {
 			family = f
 		}
 
+		if indent-1 >= len(indents) {
+			// This means the file is not valid. I have seen it in very rare
+			// cases. See full explanation in AllowInvalidIndents.
+			//
+			// This is checked before the root nodes are handled because an
+			// invalid indent on the very first line becomes a root node.
+			if dec.AllowInvalidIndents {
+				indent = len(indents)
+			} else {
+				panic(fmt.Sprintf(
+					"indent is too large - missing parent? at line %d: %s",
+					lineNumber, line))
+			}
+		}
+
 		// Add a root node to the document.
 		if indent == 0 {
 			dec.trimNodeValue(previousNode)
@@ -138,18 +153,6 @@ func (dec *Decoder) Decode() (*Document, error) {
 			indents = Nodes{node}
 
 			continue
-		}
-
-		if indent-1 >= len(indents) {
-			// This means the file is not valid. I have seen it in very rare
-			// cases. See full explanation in AllowInvalidIndents.
-			if dec.AllowInvalidIndents {
-				indent = len(indents)
-			} else {
-				panic(fmt.Sprintf(
-					"indent is too large - missing parent? at line %d: %s",
-					lineNumber, line))
-			}
 		}
 
 		i := indents[indent-1]
